@@ -12,6 +12,7 @@ import (
 
 	"verif/internal/evid"
 	"verif/props/c01"
+	"verif/props/c02"
 	"verif/props/c03"
 	"verif/props/c04"
 	"verif/props/c05"
@@ -33,6 +34,7 @@ type prop struct {
 
 var props = map[string]prop{
 	"C01": {"exploration", c01.Run, c01.Replay},
+	"C02": {"exploration", c02.Run, c02.Replay},
 	"C03": {"exploration", c03.Run, c03.Replay},
 	"C04": {"exploration", c04.Run, c04.Replay},
 	"C05": {"fault_enumeration", c05.Run, c05.Replay},
